@@ -140,7 +140,7 @@ def check_case(case, stats=None, K=oracle.K_QUICK):
 
 @st.composite
 def cases(draw, nvec, all256=False):
-    cfg = programs.Cfg(call_bias=25, tail_call_bias=40, max_funcs=4, max_params=3)
+    cfg = programs.Cfg(call_bias=25, tail_call_bias=40, max_funcs=4, max_params=3, d5_args=draw(st.booleans()))
     c = draw(programs.program_cases(cfg, nenv=1))
     if all256:
         vecs = list(range(256))
